@@ -1089,9 +1089,18 @@ def _generate_structure_virtual_field_methods(enclosing_type_name, field_ir, ir)
                         logical_type, _render_integer(int(bounds.maximum_value))
                     )
                 )
+        # Integer arguments of another type than the field's own are checked
+        # before they are converted.
+        integer_write_overloads = ""
+        if field_ir.read_transform.type.which_type == "integer":
+            integer_write_overloads = code_template.format_template(
+                _TEMPLATES.structure_single_virtual_field_integer_write_overloads,
+                logical_type=logical_type,
+            )
         write_methods = code_template.format_template(
             _TEMPLATES.structure_single_virtual_field_write_methods,
             name=name,
+            integer_write_overloads=integer_write_overloads,
             value_out_of_range=" || ".join(value_range_checks) or "false",
             read_from_text_stream_function=read_from_text_stream_function,
             logical_type=logical_type,
